@@ -122,24 +122,24 @@ claim("C19",
 
 # Later extensions of the generators / oracles (rounds 4-6 of the sensitivity work); appended to the claim text.
 EXTRA = {
- "C01": "Also generated: holders without a provider registration, provider shutdowns, challenge steering through ToProve; the reward oracle additionally demands that a listed prover of a non-young file without a recent valid proof or attestation is off the list after the reward block, and bounds every payout by the share of validly proven files.",
- "C02": "Also generated: one or two further files posted 1..2W blocks later (windows out of phase) proven by the same provider; files paid once whose expiry falls inside the schedule (windows of 3600-14400 blocks, sparse stepping).",
- "C03": "Also generated: gauges holding a second denomination (small amounts weighted up so that single cuts round to zero); the payout oracle is applied per denomination.",
+ "C01": "Also generated: holders without a provider registration, provider shutdowns, challenge steering through ToProve; the reward oracle additionally demands that a listed prover of a non-young file without a recent valid proof or attestation is off the list after the reward block, and bounds every payout by the share of validly proven files. Rounds 7-9 added: a restart action (storage module rebuilt in place from its exported genesis), busy worlds in which every holder is an active provider and forms need several signatures, attestation rounds with repeated signatures.",
+ "C02": "Also generated: one or two further files posted 1..2W blocks later (windows out of phase) proven by the same provider; files paid once whose expiry falls inside the schedule (windows of 3600-14400 blocks, sparse stepping). Rounds 8-9 added: fellow provers on the same file that take a slot and then lapse.",
+ "C03": "Also generated: gauges holding a second denomination (small amounts weighted up so that single cuts round to zero); the payout oracle is applied per denomination. Round 9 added: a pay-once file carried past its expiry with provers still proving.",
  "C04": "Also generated: referrers that have never been used on chain, upper-case spellings of creator/referrer, same-block twin payments. Requests outside the chain's current purchase policy that nevertheless succeed are judged by the accounting clauses alone.",
- "C05": "Also generated: creators spelled in upper case, century-scale expiries with matching height jumps, governance parameter changes of the mint and storage modules within meaningful ranges (percentages summing to <= 100, windows > 1, emissions up to MaxInt64) between messages.",
- "C06": "Every other in-process replica also answers gRPC queries of all custom modules and runs CheckTx between the steps of block execution and lives in another process-local time zone (zone rules embedded); histories contain files paid once for spans of months; the child process gets another TZ, locale, GOMAXPROCS and HOME.",
+ "C05": "Also generated: creators spelled in upper case, century-scale expiries with matching height jumps, governance parameter changes of the mint and storage modules within meaningful ranges (percentages summing to <= 100, windows > 1, emissions up to MaxInt64) between messages. Rounds 7-8 added: gauge accounts named as referrers (addresses nobody can sign for are never creators), tiny pay-once files with 2^45..2^63 replicas.",
+ "C06": "Every other in-process replica also answers gRPC queries of all custom modules and runs CheckTx between the steps of block execution and lives in another process-local time zone (zone rules embedded); histories contain files paid once for spans of months; the child process gets another TZ, locale, GOMAXPROCS and HOME. Rounds 7-8 added: histories anchored to the wall clock and re-executed 4.2 s later; the noisy replica is started with other operator settings (minimum-gas-prices, pruning, caches, event indexing).",
  "C07": "Also generated: non-multiples of a gigabyte, re-posts under either payment kind in the same block, deletes with the owner spelled in upper case, plans lapsing while files live.",
- "C08": "Also generated: three-label names handed to every handler, record labels coinciding with registered names, upper-case address spellings, bids in an 18-decimal denomination.",
- "C09": "Also generated: bids of up to 2^128 base units of an 18-decimal denomination; a cancel of an open bid addressed exactly as stored must not be refused; every history ends with an export/import of the name-service genesis into a fresh store where the open bids must still add up to the module balance.",
- "C10": "Also generated: access ids occurring as values (key blobs), access lists of other JSON shapes, upper-case hex spellings, reused tracking numbers.",
- "C11": "Also generated: creators that pass ValidateBasic but are no accounts (bech32 payloads of 1..300 bytes): GetSigners must name one signer or refuse; owners with a second name, height jumps beyond name expiries, sparse inbox patterns with boundary time stamps. The number of registered message types is reported, not asserted.",
- "C12": "Also generated: gauges holding two denominations (oracle per denomination), one schedule in forty with 101-140 live gauges.",
- "C13": "Also generated: TokensPerBlock up to MaxInt64, stipend address equal to the developer-grants pool or a 32-byte address, start heights around digit-length boundaries, runs of 1000+ blocks. The minted-block record is reported, not asserted (its effect, a growing emission, is).",
- "C14": "Also generated: provider populations smaller than the form size, single-label hosts, upper-case spellings of prover and signer (all-or-nothing oracle), second requests on open forms (the model follows a replacement). The number of names on a form is reported, not asserted.",
- "C15": "Also generated: provider-record edits (SetProviderIP / Keybase / TotalSpace), storage activity (a customer's files, provers falling silent, reward blocks that burn contracts), creators spelled in upper case; every history ends with an export/import of the storage genesis where the records must still add up to the escrow balance.",
- "C16": "Also generated: free initial registrations (MsgInit, several per block) at heights whose generated candidate names are partly held by paying registrants, holders of free names paying for them while live.",
- "C17": "Also generated: deletes with the owner spelled in upper case, provers under two spellings, FindFile; every history ends with an export/import of the storage genesis (both listings must hold exactly the files listed before), after which every prover posts one more proof and the lists are re-checked for duplicates and the limit.",
- "C18": "Also generated: keyless 32-byte recipients (one constructed so that its bech32 string begins with another recipient's), upper-case spellings of sender / recipient / blocker, path-like sender strings in deletes by third parties.",
- "C19": "A second search exports from fork-mode worlds: name-service histories with jumps beyond expiries, and worlds in which all 45 message types hit owners' resources between mint/storage block boundaries and governance parameter changes (any value the per-key validators accept).",
- "C20": "Also generated: raw byte segments (invalid UTF-8), percent signs, backslashes, non-NFC unicode.",
+ "C08": "Also generated: three-label names handed to every handler, record labels coinciding with registered names, upper-case address spellings, bids in an 18-decimal denomination. Round 7 added: transactions whose last message fails (everything before it is rolled back).",
+ "C09": "Also generated: bids of up to 2^128 base units of an 18-decimal denomination; a cancel of an open bid addressed exactly as stored must not be refused; every history ends with an export/import of the name-service genesis into a fresh store where the open bids must still add up to the module balance. Rounds 7-9 added: rolled-back transactions, registrants that hold almost nothing, bids of up to 2e9 ujkl.",
+ "C10": "Also generated: access ids occurring as values (key blobs), access lists of other JSON shapes, upper-case hex spellings, reused tracking numbers. Round 7 added: transactions whose last message fails (rolled back).",
+ "C11": "Also generated: creators that pass ValidateBasic but are no accounts (bech32 payloads of 1..300 bytes): GetSigners must name one signer or refuse; owners with a second name, height jumps beyond name expiries, sparse inbox patterns with boundary time stamps. The number of registered message types is reported, not asserted. Round 9 added: twin files of two owners proven by one provider, proof records as part of a file owner's resources; the foreign-resource comparison is scoped to the message groups the property names.",
+ "C12": "Also generated: gauges holding two denominations (oracle per denomination), one schedule in forty with 101-140 live gauges. Rounds 7-8 added: triplets/quadruplets of equal same-block gauges, gifts of a foreign denomination to gauge accounts.",
+ "C13": "Also generated: TokensPerBlock up to MaxInt64, stipend address equal to the developer-grants pool or a 32-byte address, start heights around digit-length boundaries, runs of 1000+ blocks. The minted-block record is reported, not asserted (its effect, a growing emission, is). Round 7 added: a parameter change in the middle of the run.",
+ "C14": "Also generated: provider populations smaller than the form size, single-label hosts, upper-case spellings of prover and signer (all-or-nothing oracle), second requests on open forms (the model follows a replacement). The number of names on a form is reported, not asserted. The signature oracle judges effects only (a deadline moves / a prover leaves only through a named signature once the distinct named signers reach the minimum, in the form's own way, at most once per form); claimers, shutdowns, unregistered provers, restarts followed by a new prover, and re-joining provers are generated.",
+ "C15": "Also generated: provider-record edits (SetProviderIP / Keybase / TotalSpace), storage activity (a customer's files, provers falling silent, reward blocks that burn contracts), creators spelled in upper case; every history ends with an export/import of the storage genesis where the records must still add up to the escrow balance. Round 8 added: vesting accounts (all coins locked) registering as providers.",
+ "C16": "Also generated: free initial registrations (MsgInit, several per block) at heights whose generated candidate names are partly held by paying registrants, holders of free names paying for them while live. Rounds 7-9 added: blank separators (the oracle prices the name as registered), standing bids, listings by the holder.",
+ "C17": "Also generated: deletes with the owner spelled in upper case, provers under two spellings, FindFile; every history ends with an export/import of the storage genesis (both listings must hold exactly the files listed before), after which every prover posts one more proof and the lists are re-checked for duplicates and the limit. Rounds 7-9 added: governance changes of the proof window, forms opened now and signed later.",
+ "C18": "Also generated: keyless 32-byte recipients (one constructed so that its bech32 string begins with another recipient's), upper-case spellings of sender / recipient / blocker, path-like sender strings in deletes by third parties. Rounds 7-9 added: block times with chosen low bytes, JSON contents with insignificant whitespace.",
+ "C19": "A second search exports from fork-mode worlds: name-service histories with jumps beyond expiries, and worlds in which all 45 message types hit owners' resources between mint/storage block boundaries and governance parameter changes (any value the per-key validators accept). Rolled-back transactions in the fork worlds; the modules' single-record queries are compared before export / after import; re-keyed records are classified by what their value decodes to.",
+ "C20": "Also generated: raw byte segments (invalid UTF-8), percent signs, backslashes, non-NFC unicode. Rounds 7-8 added: deep paths (15..257 segments), verbatim and modified re-posts.",
 }
